@@ -206,7 +206,10 @@ SigCases ==
 \* ---- family "adjust" (C14) -------------------------------------------------------------------------------------------------
 AdjLists == AllLists(L3, IF Tier = "quick" THEN { FromNat(9), FromNat(3) } ELSE { FromNat(9), FromNat(3), Sub(Pow2(256), One), Zero, Add(RMod, FromNat(3)) })
 EncPreStepC(pre) == [a |-> "encryptpre", pre |-> pre, mu |-> Pad(Mu(10), 32), msg |-> Msg10, t |-> Pad(Rand(11), 32), stream |-> Stream(Rand(11))]
-AdjCh == [1..L3 -> SlotChoices(IF Tier = "quick" THEN { FromNat(9), FromNat(3) } ELSE { FromNat(9), FromNat(3), Sub(Pow2(256), One), Zero, Add(RMod, FromNat(3)) })]
+\* identities with word-boundary structure (2^128 + 7: bits 64..127 zero, a bit above) among them: the adjustment multiplies by the
+\* difference of identities, and a narrowing of that exponent is invisible for small values
+AdjCh == [1..L3 -> SlotChoices(IF Tier = "quick" THEN { FromNat(9), FromNat(3), Add(Pow2(128), FromNat(7)) }
+                               ELSE { FromNat(9), FromNat(3), Sub(Pow2(256), One), Zero, Add(RMod, FromNat(3)), Add(Pow2(128), FromNat(7)), Add(Pow2(192), FromNat(5)) })]
 ParentChs == { <<<<"U">>, <<"U">>, <<"U">>>>, <<<<"V", FromNat(9)>>, <<"U">>, <<"U">>>>, <<<<"U">>, <<"H">>, <<"U">>>>, <<<<"H">>, <<"U">>, <<"V", FromNat(9)>>>> }
 \* lists for the precomputed product may carry the omitFromKeys flag together with a value (the flag concerns keys only)
 AdjChFlagged == [1..L3 -> {<<"U">>, <<"V", FromNat(9)>>, <<"HV", FromNat(3)>>, <<"HV", FromNat(9)>>}]
